@@ -569,6 +569,11 @@ def _hist_job(h):
         for si, st in enumerate([None] + h["steps"]):
             if st is not None:
                 frames = [_hist_frame(spec, n, sd) for n, sd in zip(st["frames"], st["seeds"])]
+                if st.get("permute"):
+                    # the same columns in another order: legal for an append (names are compared sorted); the new row groups must
+                    # still list their chunks in the SCHEMA's order (parquet.thrift: "same order as the SchemaElement list")
+                    frames = [f[[f.columns[i] for i in st["permute"] if i < len(f.columns)] +
+                                [c for j, c in enumerate(f.columns) if j not in st["permute"]]] for f in frames]
                 fail = st.get("fail")
                 if fail and fail["kind"] == "cell":
                     col = fail["col"]
@@ -622,7 +627,7 @@ def _hist_job(h):
                 except Exception as e:     # noqa: a step that raises must leave the file as it was
                     raised = e
                 if raised is None:
-                    expected = pd.concat([expected] + frames, ignore_index=True)
+                    expected = pd.concat([expected] + [f[list(expected.columns)] for f in frames], ignore_index=True)
                 else:
                     any_failed = True
                     out["failed_steps"] += 1
@@ -682,6 +687,11 @@ def gen_histories(ctx):
                 st["offsets"] = rng.choice([None, 2, 5])
             elif nfr == 1 and rng.random() < 0.4:
                 st["offsets"] = rng.choice([2, 5])
+            if ncols > 1 and rng.random() < 0.5:
+                perm = list(range(ncols))
+                while perm == list(range(ncols)):
+                    rng.shuffle(perm)
+                st["permute"] = perm
             steps.append(st)
         hs.append({"spec": spec, "opts": o, "steps": steps})
     return hs
@@ -709,7 +719,7 @@ def gen_multi_histories(ctx):
             via = rng.choice(["handle", "fresh", "fresh"])
             nparts = rng.choice([1, 1, 2])
             steps.append({"via": via, "frames": [2 * nparts], "seeds": [rng.randrange(1 << 30)], "offsets": 2 if nparts > 1 else None,
-                          "fail": None})
+                          "fail": None, **({"permute": [1, 0]} if len(kinds) > 1 and rng.random() < 0.6 else {})})
         if i % 2 == 1:
             # class "failed operation, then continued use of the same handle": the producer of the frames raises after k part files of this
             # append were written; the step must leave the dataset as it was (part files left behind are not part of it), and the NEXT
